@@ -9,6 +9,7 @@ import (
 	"fmt"
 	"io"
 	"strings"
+	"verif/internal/typeuniv"
 
 	jsonv2 "github.com/go-json-experiment/json"
 	"github.com/go-json-experiment/json/jsontext"
@@ -390,6 +391,26 @@ func replayCase(cs Case) string {
 		var fb, sb bool
 		fmt.Sscan(cs.Path, &fb, &sb)
 		return resetOne(cs.L, cs.FailAt, fb, sb)
+	case "small-value":
+		var oi int
+		fmt.Sscan(cs.OptSet, &oi)
+		for _, t := range typeuniv.Universe(typeuniv.Cfg{Depth: 1, NoInvalid: true}) {
+			if typeuniv.Describe(t) == cs.Path {
+				if d := typeuniv.Domain(t, true); cs.Value < len(d) && oi < len(optSetsSV) {
+					return smallOne(d[cs.Value].Interface(), optSetsSV[oi])
+				}
+			}
+		}
+	case "user-value":
+		var oi int
+		fmt.Sscan(cs.OptSet, &oi)
+		if uv := userValues(); cs.Value < len(uv) && oi < len(optSetsSV) {
+			opts := optSetsSV[oi]
+			if cs.Warm == 1 {
+				opts = append(append([]jsonv2.Options{}, opts...), svFuncs)
+			}
+			return smallOne(uv[cs.Value], opts)
+		}
 	case "sequence":
 		var ks, vs []int
 		parts := strings.SplitN(cs.Path, "] [", 2)
